@@ -47,7 +47,7 @@ def main():
     logger.addHandler(stdout_hdlr)
     logger.setLevel(logging.INFO)
 
-    eol = '\n' if args.eol else ''
+    files_written = 0
     for fn in args.input_files:
         # the name of an existing file is that file, whatever characters it contains; anything else is a pattern
         for file_in in ([fn] if os.path.isfile(fn) else glob.iglob(fn)):
@@ -57,6 +57,8 @@ def main():
             # no newline translation on the way through: CR and LF may be delimiters or data
             fd_out = tempfile.TemporaryFile(mode='w+', encoding='ascii', newline='')
             src = pyx12.x12file.X12Reader(file_in)
+            # one segment per line: a terminator that is itself a line feed already ends the line
+            eol = '\n' if args.eol and src.seg_term != '\n' else ''
             for seg_data in src:
                 if args.fixcounting:
                     err_codes = [(x[1]) for x in src.pop_errors()]
@@ -72,13 +74,15 @@ def main():
                 #    err_codes = [(x[1]) for x in src.pop_errors()]
                 #    if 'SEG1' in err_codes:
                 fd_out.write(seg_data.format() + eol)
-            if eol == '':
+            if not args.eol:
                 fd_out.write('\n')
 
             fd_out.seek(0)
             if args.outputfile:
-                with open(args.outputfile, mode='w', encoding='ascii', newline='') as fd_dest:
+                # the output file receives every input file, as standard output does
+                with open(args.outputfile, mode='a' if files_written else 'w', encoding='ascii', newline='') as fd_dest:
                     fd_dest.write(fd_out.read())
+                files_written += 1
             else:
                 if args.inplace:
                     with open(file_in, mode='w', encoding='ascii', newline='') as fd_orig:
